@@ -170,9 +170,137 @@ def check(obj):
     return None
 
 
+def prim_checks():
+    """primitive -> PDU -> bytes -> PDU -> primitive on concrete well-formed primitives; returns first mismatch"""
+    from pynetdicom import pdu_primitives as pp
+    from pynetdicom.presentation import PresentationContext
+    # P-DATA
+    for n in (0, 1, 2, 3):
+        p = pp.P_DATA()
+        p.presentation_data_value_list = [[2 * i + 1, bytes([i % 4]) + bytes([65 + i]) * (3 + i)] for i in range(n)]
+        want = [(a, b) for a, b in p.presentation_data_value_list]
+        x = pdu.P_DATA_TF(p)
+        ref = b"\x04\x00" + sum(4 + 1 + len(b) for _a, b in want).to_bytes(4, "big") + \
+            b"".join((1 + len(b)).to_bytes(4, "big") + bytes([a]) + b for a, b in want)
+        enc = x.encode()
+        if enc != ref:
+            return dict(input=f"P_DATA with {n} PDVs {want!r}", observed=enc.hex(), expected=ref.hex())
+        y = pdu.P_DATA_TF()
+        y.decode(enc)
+        got = [(a, b) for a, b in y.to_primitive().presentation_data_value_list]
+        if got != want:
+            return dict(input=f"P_DATA with {n} PDVs", observed=repr(got), expected=repr(want))
+    # aborts / reject / release
+    for src in (0, 2):
+        a = pp.A_ABORT()
+        a.abort_source = src
+        y = pdu.A_ABORT_RQ()
+        y.decode(pdu.A_ABORT_RQ(a).encode())
+        o = y.to_primitive()
+        ok = (isinstance(o, pp.A_ABORT) and o.abort_source == src) if src == 0 else isinstance(o, pp.A_P_ABORT)
+        if not ok:
+            return dict(input=f"A_ABORT source {src}", observed=repr(vars(o)), expected="same source")
+    for r in (0, 1, 2, 4, 5, 6):
+        a = pp.A_P_ABORT()
+        a.provider_reason = r
+        y = pdu.A_ABORT_RQ()
+        y.decode(pdu.A_ABORT_RQ(a).encode())
+        o = y.to_primitive()
+        if not (isinstance(o, pp.A_P_ABORT) and o.provider_reason == r):
+            return dict(input=f"A_P_ABORT reason {r}", observed=repr(vars(o)), expected="same reason")
+    for tr in ((1, 1, 1), (2, 1, 7), (1, 2, 2), (2, 3, 1)):
+        a = pp.A_ASSOCIATE()
+        a.result, a.result_source, a.diagnostic = tr
+        y = pdu.A_ASSOCIATE_RJ()
+        y.decode(pdu.A_ASSOCIATE_RJ(a).encode())
+        o = y.to_primitive()
+        if (o.result, o.result_source, o.diagnostic) != tr:
+            return dict(input=f"A_ASSOCIATE reject {tr}", observed=(o.result, o.result_source, o.diagnostic), expected=tr)
+    # associate request / accept
+    def ui():
+        m = pp.MaximumLengthNotification()
+        m.maximum_length_received = 16382
+        c = pp.ImplementationClassUIDNotification()
+        c.implementation_class_uid = "1.2.3.4"
+        v = pp.ImplementationVersionNameNotification()
+        v.implementation_version_name = "VER_1"
+        r1 = pp.SCP_SCU_RoleSelectionNegotiation()
+        r1.sop_class_uid, r1.scu_role, r1.scp_role = "1.2.840.10008.5.1.4.1.1.2", True, False
+        r2 = pp.SCP_SCU_RoleSelectionNegotiation()
+        r2.sop_class_uid, r2.scu_role, r2.scp_role = "1.2.840.10008.5.1.4.1.1.4", False, True
+        e = pp.SOPClassExtendedNegotiation()
+        e.sop_class_uid, e.service_class_application_information = "1.2.3.9", b"\x01\x00\x02"
+        ce = pp.SOPClassCommonExtendedNegotiation()
+        ce.sop_class_uid, ce.service_class_uid = "1.2.3.10", "1.2.3.11"
+        ce.related_general_sop_class_identification = ["1.2.3.12", "1.2.3.13"]
+        u = pp.UserIdentityNegotiation()
+        u.user_identity_type, u.primary_field, u.secondary_field, u.positive_response_requested = 2, b"user", b"pw", True
+        aw = pp.AsynchronousOperationsWindowNegotiation()
+        aw.maximum_number_operations_invoked, aw.maximum_number_operations_performed = 5, 0
+        return [m, c, v, aw, r1, r2, e, ce, u]
+
+    def sig(x):
+        out = [type(x).__name__]
+        for k in sorted(vars(x)):
+            out.append((k, getattr(x, k)))
+        return out
+    for npc in (0, 1, 3):
+        a = pp.A_ASSOCIATE()
+        a.calling_ae_title, a.called_ae_title = "CALLING", "CALLED AE"
+        a.application_context_name = "1.2.840.10008.3.1.1.1"
+        cxs = []
+        for i in range(npc):
+            c = PresentationContext()
+            c.context_id, c.abstract_syntax = 2 * i + 1, f"1.2.840.10008.5.1.4.1.1.{i + 1}"
+            c.transfer_syntax = ["1.2.840.10008.1.2", "1.2.840.10008.1.2.1"][: 1 + i % 2]
+            cxs.append(c)
+        a.presentation_context_definition_list = cxs
+        a.user_information = ui()
+        y = pdu.A_ASSOCIATE_RQ()
+        y.decode(pdu.A_ASSOCIATE_RQ(a).encode())
+        o = y.to_primitive()
+        got = (o.calling_ae_title, o.called_ae_title, str(o.application_context_name),
+               [(c.context_id, str(c.abstract_syntax), [str(t) for t in c.transfer_syntax]) for c in o.presentation_context_definition_list],
+               [sig(x) for x in o.user_information])
+        want = (a.calling_ae_title, a.called_ae_title, str(a.application_context_name),
+                [(c.context_id, str(c.abstract_syntax), [str(t) for t in c.transfer_syntax]) for c in cxs], [sig(x) for x in a.user_information])
+        if got != want:
+            return dict(input=f"A_ASSOCIATE request with {npc} contexts", observed=repr(got)[:600], expected=repr(want)[:600])
+        b = pp.A_ASSOCIATE()
+        b.calling_ae_title, b.called_ae_title = "CALLING", "CALLED AE"
+        b.application_context_name = "1.2.840.10008.3.1.1.1"
+        res = []
+        for i in range(npc):
+            c = PresentationContext()
+            c.context_id, c.result = 2 * i + 1, (0, 3, 4)[i % 3]
+            c.transfer_syntax = ["1.2.840.10008.1.2"]
+            res.append(c)
+        b.presentation_context_definition_results_list = res
+        uu = pp.UserIdentityNegotiation()
+        uu.server_response = b"ticket"
+        b.user_information = ui()[:3] + [uu]
+        b.result = 0
+        y = pdu.A_ASSOCIATE_AC()
+        y.decode(pdu.A_ASSOCIATE_AC(b).encode())
+        o = y.to_primitive()
+        got = (str(o.application_context_name), [(c.context_id, c.result, [str(t) for t in c.transfer_syntax]) for c in o.presentation_context_definition_results_list],
+               [sig(x) for x in o.user_information], o.result)
+        want = (str(b.application_context_name), [(c.context_id, c.result, [str(t) for t in c.transfer_syntax]) for c in res],
+                [sig(x) for x in b.user_information], 0)
+        if got != want:
+            return dict(input=f"A_ASSOCIATE accept with {npc} contexts", observed=repr(got)[:600], expected=repr(want)[:600])
+    return None
+
+
 def main():
     rec = load() if len(sys.argv) > 1 and sys.argv[1] != "--all" else {"id": "all"}
     oid = rec["id"]
+    if "primitive:" in oid or oid == "all":
+        b = prim_checks()
+        if b:
+            done(True, **b)
+        if oid != "all":
+            done(False, note="primitive -> PDU -> bytes -> primitive preserved every parameter on the replay primitives")
     leafs = items()
     objs = leafs + containers(leafs) + pdus(leafs)
     want_cls = None
